@@ -26,6 +26,9 @@ Iterables ==
     [n |-> "slice_int", e |-> Id("xs"), data |-> [xs |-> AT(Ints(3), "ints")], xs |-> Ints(3), kind |-> "seq"],
     [n |-> "array_int", e |-> Id("xs"), data |-> [xs |-> AT(Ints(2), "array")], xs |-> Ints(2), kind |-> "seq"],
     [n |-> "slice_str", e |-> Id("xs"), data |-> [xs |-> AT(<<S(<<"p">>), S(<<"q">>)>>, "strs")], xs |-> <<S(<<"p">>), S(<<"q">>)>>, kind |-> "seq"],
+    \* collections with a nil element after a non-nil one (the value name of that iteration is bound to nil)
+    [n |-> "lit_nil", e |-> Arr(<<IntL(11), Id("nil"), IntL(33)>>), data |-> EmptyScope, xs |-> <<I(11), I(33), I(33)>>, kind |-> "seqnil"],
+    [n |-> "slice_nil", e |-> Id("xs"), data |-> [xs |-> A(<<I(11), Nil, I(33)>>)], xs |-> <<I(11), I(33), I(33)>>, kind |-> "seqnil"],
     [n |-> "range", e |-> Call("range", <<IntL(3), IntL(5)>>), data |-> EmptyScope, xs |-> <<I(3), I(4), I(5)>>, kind |-> "seq"],
     [n |-> "range_empty", e |-> Call("range", <<IntL(3), IntL(2)>>), data |-> EmptyScope, xs |-> <<>>, kind |-> "seq"],
     [n |-> "between", e |-> Call("between", <<IntL(0), IntL(3)>>), data |-> EmptyScope, xs |-> <<I(1), I(2)>>, kind |-> "seq"],
@@ -72,10 +75,12 @@ Blocks(it) ==
     nsit |-> Emit(For("k", "v", Call("range", <<IntL(7), IntL(8)>>), <<Emit(Id("v"))>>)),
     nsar |-> Emit(For("k", "v", Arr(<<IntL(7), IntL(8)>>), <<Emit(Id("v"))>>)),
     nsnil |-> Emit(For("k", "v", Id("nil"), <<Emit(Id("v"))>>)),
+    \* the value where it is tolerated to be nil
+    evt  |-> Emit(IfElse(Id("v"), <<Text(<<"+">>)>>, <<Text(<<"-">>)>>)),
     fnl  |-> Let("g", FnLit(<<>>, <<Text(<<"x">>)>>)),
     ret  |-> Code(If(IsTrig(it), <<Ret(Str(<<"R">>))>>)) ]
-BlockNames == {"ev", "ek", "txt", "brk", "tbrk", "cnt", "tcnt", "ebrk", "nest", "nbrk", "nsit", "nsar", "nsnil", "fnl", "ret"}
-ControlFree == {"ev", "ek", "txt", "nest", "nsit", "nsar", "nsnil", "fnl"}
+BlockNames == {"evt", "ev", "ek", "txt", "brk", "tbrk", "cnt", "tcnt", "ebrk", "nest", "nbrk", "nsit", "nsar", "nsnil", "fnl", "ret"}
+ControlFree == {"evt", "ev", "ek", "txt", "nest", "nsit", "nsar", "nsnil", "fnl"}
 
 VARIABLES it, names, res
 vars == <<it, names, res>>
@@ -93,7 +98,8 @@ Init == /\ it \in Iterables /\ names = <<>> /\ res = [k |-> "none"]
 AddStmt == /\ res.k = "none" /\ Len(names) < MaxLen
            /\ \E b \in BlockNames : (it.n = "map_nan" => b # "ek") /\ names' = Append(names, b)
            /\ UNCHANGED <<it, res>>
-Finish == /\ res.k = "none" /\ Len(names) >= 1
+\* (a body may be empty: the loop still looks at its iterable)
+Finish == /\ res.k = "none"
           /\ res' = Run(Prog, WithHelpers(it.data), EmptyScope, "")
           /\ UNCHANGED <<it, names>>
 Next == AddStmt \/ Finish
